@@ -12,12 +12,14 @@ import (
 	"pgregory.net/rapid"
 
 	"verifharness/bgen"
+	"verifharness/fc"
 	"verifharness/h"
 	ref "verifharness/ref/bech32"
 	"verifharness/ref/trit"
 )
 
 func TestMain(m *testing.M) {
+	h.FirstCallsChild(fc.Address()) // never returns in a first-call child process
 	if err := ref.SelfCheck(); err != nil {
 		fmt.Println("VERIF-INFRA reference self-check failed:", err)
 		panic(err)
@@ -574,3 +576,6 @@ func TestMigrationSubstitutions(t *testing.T) {
 func FuzzGenParse(f *testing.F) {
 	h.FuzzSub(f, h.Sub[parseCase]{Prop: "C19", Name: "parse-strict", Gen: genParse, Check: checkParse})
 }
+
+// which public entry point is called first in a process (and by how many goroutines at once)
+func TestFirstCalls(t *testing.T) { h.FirstCallsSub(t, "C19", fc.Address(), 6) }
